@@ -17,11 +17,11 @@ CHECKS = {
  "C04": ("exploration", "property-based testing; f64 margin oracle over the decoded dump + search_k=1 self lookup",
          "For every generated built index every item is checked against every non-degenerate plane above it (independent f64 margin with forward error bound), and the smallest-budget self lookup must find items that some tree separates decisively.", "Planes with |margin| below the rounding bound are exempt (wider than the property's exact-zero exemption).", "4 C04"),
  "C05": ("exploration", "stateful property-based testing vs HashMap model (bit-exact)",
-         "Histories with arbitrary f32 bit patterns, ids over the whole u32 range and dimensions 1-130 (plus 300-3000 in a second tier); after every op the writer API (contains/item_vector/iter/is_empty/del result) and after every committed build the reader API must equal the model bit for bit (sign pattern for quantised metrics).", "-", "4 C05"),
+         "Histories with arbitrary f32 bit patterns, ids over the whole u32 range and dimensions 1-130 (plus 300-3000 in a second tier); after every op the writer API (contains/item_vector/iter incl. its last/nth/count adaptors/is_empty/del result) and after every committed build the reader API (plus stats().leaf) must equal the model bit for bit (sign pattern for quantised metrics).", "-", "4 C05"),
  "C06": ("exploration", "stateful property-based testing vs a 2-bit (built, stale) state machine, checked after every single step",
-         "Step scripts with all 13 operation kinds at every position relative to the last build, run with a fresh Writer per call or one Writer value kept across transactions, plus scripts with > 4096 pending updates; after each step need_build and Reader::open (built metric + another metric) must answer exactly per the model, in the write txn and from fresh read txns.", "State between a cancelled build and its abort is C10's, not judged here; clear on an empty index unconstrained.", "4 C06"),
+         "Step scripts with all 13 operation kinds at every position relative to the last build, run with a fresh Writer per call or one Writer value kept across transactions, plus scripts with > 4096 pending updates; after each step need_build (asked through a writer of the index's metric and of another one) and Reader::open (built metric + another metric) must answer exactly per the model, in the write txn and from fresh read txns.", "State between a cancelled build and its abort is C10's, not judged here; clear on an empty index unconstrained.", "4 C06"),
  "C07": ("exploration", "stateful property-based testing; byte-for-byte differential of raw dumps of passive indexes",
-         "Interleaved scripts on 2-3 (mostly adjacent / extreme) indexes: the raw key/value bytes of every other index are identical before and after each step on the active one.", "-", "4 C07"),
+         "Interleaved scripts on 2-3 (mostly adjacent / extreme) indexes: the raw key/value bytes of every other index are identical before and after each step on the active one, and the active index's own store and forest are those of its own history whatever state its neighbours are in.", "-", "4 C07"),
  "C14": ("exploration", "property-based testing over build configurations; poll-count termination oracle + walker + brute force",
          "available_memory x sizes around the 200-item batch (and rounds of 4097-9000 new ids) x split_after incl. >=200 x incremental histories: the build must return Ok within a poll-count bound (no clock), the forest must be valid and exact search correct.", "Poll bound = 100 (n+16)(t+1) + n^2 (t+1)/20 + 20000 polls, >=4x above the structural worst case.", "4 C14"),
  "C15": ("exploration", "stateful property-based testing with predicates on reader + decoded dump",
@@ -36,7 +36,7 @@ CHECKS = {
 
 CHECKS.update({
  "C11": ("exploration", "property-based testing of numeric kernels vs f64 reference with rigorous forward error bounds; exhaustive lane enumeration",
-         "Every length 1..=300: one-hot/one-cold pairs at every lane (a dropped or doubled lane is a 100% error), generated pairs from 7 value classes at all byte offsets, on the public dispatch, the exported SSE and AVX kernels, the plain loops and end to end through stored items.", "NEON not reachable on this host; bounds x4 over the standard forward bound (observed error <= 0.13 of the bound).", "4 C11"),
+         "Every length 1..=300: one-hot/one-cold pairs at every lane (a dropped or doubled lane is a 100% error), generated pairs from 7 value classes at all byte offsets, on the public dispatch, the exported SSE and AVX kernels, the plain loops and end to end through stored items; the reference is computed under the default MXCSR.", "NEON not reachable on this host; bounds x4 over the standard forward bound (observed error <= 0.13 of the bound).", "4 C11"),
  "C12": ("exploration", "exhaustive enumeration (d<=12) + property-based testing of the quantised codec and Hamming formulas, bit-exact",
          "All 2^d sign patterns for d<=12 with special floats, random patterns for d<=300 with prescribed Hamming distance, through every conversion path, the stored bytes, writer/reader read-back and query ordering.", "NEON variants not compiled on x86-64.", "4 C12"),
  "C13": ("exploration", "schedule enumeration with an owned scheduler (all interleavings of the generator's atomic steps) + property-based schedules + multi-threaded histories",
@@ -49,7 +49,7 @@ CHECKS.update({
  "C09": ("fault_enumeration", "crash-point enumeration: child process parked at an enumerated callback / operation / commit and SIGKILLed, parent reopens and compares with the acknowledged versions' models",
          "Every callback of one build per history (plus sampled ones), operation boundaries and commit windows are kill points; after each kill the reopened environment must equal the last acknowledged (or in-flight) version, pass walker and exact search, and be writable; chains resume to the end.", "Process death only: page cache survives, no torn writes.", "4 C09"),
  "C10": ("fault_enumeration", "fault enumeration: cancel-at-n for every n of the complete build's polls, LMDB map-size ladder, unusable temp dirs, fd/temp-file census",
-         "For generated states with pending insertions and deletions, the build is cancelled at every poll index (and once more on a builder value that is then reused for the retry); it must return BuildCancelled (or Ok with a valid index if never polled again), never panic; abort restores the raw dump byte for byte; retry validates; MapFull and io errors are reported as such; no fd or temp file leaks.", "Monotone callbacks; ENOSPC/EIO on temp files not injectable here.", "4 C10"),
+         "For generated states with pending insertions and deletions, the build is cancelled at every poll index (and once more on a builder value that is then reused for the retry); it must return BuildCancelled (or Ok with a valid index if never polled again), never panic; abort restores the raw dump byte for byte; retry validates; MapFull (through add_item and append_item) and io errors are reported as such; no fd, temp file or temp-file mapping is left when build returns, and foreign files in the temp directory survive.", "Monotone callbacks; ENOSPC/EIO on temp files not injectable here.", "4 C10"),
 })
 
 CHECKS.update({
